@@ -4,8 +4,8 @@ Deviation-bounded enumeration: well-formed hourly frames (length x zone/DST
 placement x first/last supplied hour x fuel x irradiance x data class x index
 unit) and every deviation from them up to a bound (NaN cell, absent row,
 duplicated row with a different value in both orders, zero usage, NaN runs,
-whole column empty) at every hour of the short frames / on a lattice of the long
-ones.  The oracle is computed cell by cell from the INPUT alone:
+whole column empty, column with a single value) at every hour of the short frames /
+on a lattice of the long ones.  The oracle is computed cell by cell from the INPUT alone:
 
   index      data.df is gap-free hourly (contiguous in UTC) from the first to the
              last on-the-hour instant of the local days of the first / last
@@ -37,7 +37,8 @@ H = 3_600_000_000_000  # one hour in ns
 ASSUMPTIONS = [
     "a 'supplied day' is the local calendar date of any row present in the input (NaN cells do not remove a row); no "
     "enumerated case has a first or last day all of whose rows are NaN in every column, so 'first/last row' and 'first/last "
-    "row carrying a value' name the same day",
+    "row carrying a value' name the same day (exception: the frames whose columns are ALL empty, where only the rows can "
+    "define the days)",
     "'whole local days' = every instant of the input's hourly lattice whose local date lies between the first and last "
     "supplied day: 00:00..23:00 local wherever those wall times exist once; in zones whose DST change is at local midnight the "
     "first existing instant of the day and the second 23:00/00:00 are included (such zones are a separate space, keyed "
@@ -52,6 +53,11 @@ ASSUMPTIONS = [
     "starts at 4 days; their violations carry frame='3d' in the key so they can be judged separately",
     "gas (non-electric) zero usage is a supplied value and must be preserved unflagged",
     "the tz of the returned index is not constrained; instants are compared",
+    "inputs are sorted by time, on the hour in local time, float64, with a DatetimeIndex (units ns/us/s); zones with a "
+    "sub-hour DST shift (Lord Howe) are not enumerated because on-the-hour local input is not hourly-contiguous there, so "
+    "'gap-free hourly' has no agreed meaning",
+    "cell values are a distinct ramp per column (value = a + b*slot; the extra row of a duplicate carries +b/2), so a value "
+    "taken from another row or from the losing duplicate is recognisable",
 ]
 
 # ----------------------------------------------------------------------------------------------------------------------
@@ -165,6 +171,13 @@ def build_input(case):
             if dev[1] in orig:
                 orig[dev[1]][:] = np.nan
                 extra[dev[1]][:] = np.nan
+        elif kind == "only":  # the column holds a single value, at slot p
+            _, c, p = dev
+            if c in orig:
+                v = orig[c][p]
+                orig[c][:] = np.nan
+                extra[c][:] = np.nan
+                orig[c][p] = v
         elif kind == "empty0":
             if "observed" in orig:
                 orig["observed"][:] = 0.0
@@ -572,7 +585,12 @@ def cases(tier):
                             if (p in (None, "mid") or nd <= 4) and (fuel == "electric" or thorough):
                                 for ek in empty_kinds(b):
                                     A.append({"base": b, "devs": [list(k) for k in ek]})
-    spaces.append(("A well-formed and whole-column-empty frames, full base product", A))
+                            if p in (None, "mid") and hrs == (6, 17) and fuel == "electric" and ghi and cls == "baseline" and nd <= 43:
+                                n = nslots(b)  # all but one value of a column missing
+                                for c in COLS3:
+                                    for q in (0, n // 2, n - 1):
+                                        A.append({"base": b, "devs": [["only", c, q]]})
+    spaces.append(("A well-formed, whole-column-empty and single-value-column frames, full base product", A))
 
     # B. one point deviation at every hour of the short frames
     B = []
